@@ -3,3 +3,4 @@ import Properties.C13
 import Properties.C20
 import Properties.C03
 import Properties.C05
+import Properties.C04
